@@ -1,6 +1,7 @@
 """C05 - at most one record per query: the best-scoring candidate, in query-id order."""
 import collections
 
+from vf import core
 from vf import e2e, gen, hooks, oracles, pipeline, text
 from vf.core import Shard, rng_for
 
@@ -59,7 +60,7 @@ def judge(case, wd, sh):
                 run = pipeline.run_inprocess(c, wd, tag=mode, serial=True, extensions=[
                     hooks.candidates_extension(pc, cands), initial_extension(pc, inits)])
         else:
-            run = pipeline.run_inprocess(c, wd, tag=mode, serial=True)
+            run = pipeline.run_forked(c, wd, tag=mode, serial=True)
         sh.evaluations += 1
         sh.count('runs')
         if run.error:
@@ -158,7 +159,7 @@ def run_shard(spec):
         case['params']['p'] = rng.choice([1, 3, 6, 8])
         case['params']['md'] = rng.choice([20000, 20000, 5000])
         case['gen'] = [spec['seed'], spec['shard'], i]
-        judge(case, spec['workdir'], sh)
+        core.isolated(judge, sh, case, spec['workdir'])
     if hooks.MONITOR_ERRORS:
         sh.inconclusive.append('monitor errors: %s' % hooks.MONITOR_ERRORS[:3])
     return sh
